@@ -30,7 +30,8 @@ namespace OP2Utility
 		std::vector<Palette8Bit> palettes;
 		std::vector<ImageMeta> imageMetas;
 		std::vector<Animation> animations;
-		uint32_t unknownAnimationCount;
+		// Note: Initialized so a default constructed ArtFile serializes to defined bytes
+		uint32_t unknownAnimationCount = 0;
 
 		static ArtFile Read(std::string filename);
 		static ArtFile Read(Stream::Reader& reader);
